@@ -40,11 +40,16 @@ class Wire:
     connection (bytes that arrive before the reader exists are fed when it is
     created)."""
 
-    def __init__(self, data, sizes):
+    def __init__(self, data, sizes, stall=None):
         self.remaining = bytes(data)
         self.sizes = list(sizes)
         self.reader = None
         self.pre = 0
+        # a stalled data path: once `after` bytes were delivered, the next wait of the reader takes `seconds` of
+        # (virtual) time before anything more arrives - time passes for the client's timers, nothing else changes
+        self.stall = stall
+        self.stalled = False
+        self.delivered = 0
 
     def attach(self, reader):
         self.reader = reader
@@ -55,6 +60,7 @@ class Wire:
     def _feed(self, n):
         seg, self.remaining = self.remaining[:n], self.remaining[n:]
         if seg:
+            self.delivered += len(seg)
             self.reader.feed_data(seg)
 
     def push(self, k):
@@ -101,7 +107,11 @@ class ScriptedReader(asyncio.StreamReader):
         wire.attach(self)
 
     async def _wait_for_data(self, func_name):
-        self._wire.wait()
+        w = self._wire
+        if w.stall and not w.stalled and w.delivered >= w.stall['after']:
+            w.stalled = True
+            await asyncio.sleep(w.stall['seconds'])
+        w.wait()
 
     async def readline(self):
         try:
@@ -304,7 +314,7 @@ def run_visit(case, loop):
     if case.get('restart') is not None:
         request.set_continue(case['restart'])
     ctrl_wire = Wire(ctrl_bytes, case['ctrl_segs'])
-    data_wire = Wire(data_bytes, case['data_segs'])
+    data_wire = Wire(data_bytes, case['data_segs'], stall=case.get('stall'))
     net = Net(case.get('net') or [], ctrl_wire, data_wire)
     ctrl = FakeConnection(('127.0.0.1', 21), ctrl_wire, log, 'c', limit, net)
     pool = FakePool(ctrl, data_wire, log, limit, net)
@@ -385,9 +395,29 @@ def run_visit(case, loop):
     }
 
 
+class VirtualTimeLoop(asyncio.SelectorEventLoop):
+    """time is virtual: when nothing is ready the clock jumps to the next timer, so a scripted stall of the data path costs no
+    real time while the client's own timers (wait_for, call_later) still fire in the right order"""
+
+    def __init__(self):
+        super().__init__()
+        self._vt = 0.0
+
+    def time(self):
+        return self._vt
+
+    def _run_once(self):
+        if not self._ready and self._scheduled:
+            whens = [h._when for h in self._scheduled if not h._cancelled]
+            if whens and min(whens) > self._vt:
+                self._vt = min(whens)
+        super()._run_once()
+
+
 def main():
     req = json.load(sys.stdin)
-    loop = harness.compat.new_loop()
+    loop = VirtualTimeLoop()
+    asyncio.set_event_loop(loop)
     res = []
     for case in req['cases']:
         kind = case['kind']
